@@ -149,10 +149,12 @@ impl<'db> FunctionDebugInfo<'db> {
         };
         let params = param_list.elements(db);
 
-        // Invariant: `self.sierra_params_count` may count implicits while `params` do not contain
-        // them.
-        debug_assert!(self.param_ids.len() >= params.len());
-        let implicits_count = self.param_ids.len() - params.len();
+        // `self.param_ids` may count implicits while `params` do not contain them. A specialized
+        // function, on the other hand, has no Sierra parameter for the arguments it is specialized
+        // on - if fewer Sierra parameters than declared ones are left, they cannot be matched.
+        let Some(implicits_count) = self.param_ids.len().checked_sub(params.len()) else {
+            return Default::default();
+        };
 
         // Invariant: implicit params are always listed first.
         self.param_ids
